@@ -37,4 +37,10 @@ CLAIMS["C10"] = {
   "technique": "Coq proof over executable class-template model + AST translator + differential correspondence + direct oracle",
   "design_ref": "DESIGN.md 5/C10"}
 
+CLAIMS["C09"] = {
+  "text": "Theorems of Props/C09.v over the class templates, for every class definition, option/override combination with pairwise distinct final keys, instance and per-attribute handlers: C09_exact_key_set / C09_unstructure_total (the generated unstructure hook never fails and emits exactly the configured key set: final keys after rename/use_alias, omitted attributes absent, default-valued ones absent exactly when omit_if_default applies) and C09_roundtrip_detailed / C09_roundtrip_fast (the structure hook generated with the same customisation, in either validation mode, accepts that dict and restores every handled attribute, given inverse handlers, no field converters and defaults for omitted __init__ arguments). C09_generation_partial: attribute order cannot break generation (fix F1); key text can (open finding F3) -- that clause of the statement is refuted on the implementation and reported as KNOWN-FINDING, as is F22 (omit_if_default ignores field converters). Tie: T1 flags + TPL lane (un_gen evaluated by vm_compute vs real make_dict_unstructure_fn; round trip and key-set oracles on the implementation). TypedDict and NamedTuple customisation: direct oracles (finding F12 fixed).",
+  "note": TB_TPL + " TypedDict templates (gen/typeddicts.py) and the NamedTuple pseudo-attributes are not modelled: oracle only.",
+  "technique": "Coq proof (exact output of the unstructure template; round trip via the structure specification) + differential correspondence + direct oracle",
+  "design_ref": "DESIGN.md 5/C09"}
+
 NOT_APPLICABLE = {}
